@@ -187,6 +187,8 @@ let predict_fault (w : world) (toks : string list) (k : int) : string =
     (* archetypes are cleared in the order the implementation reports; the first panic ends the operation *)
     let order = if Array.length arr > 3
       then List.map shape_of_bits (Array.to_list (Array.sub arr 3 (Array.length arr - 3))) else [] in
+    (* the order the implementation reports is the table's; the one clear uses is the model's [clear_order] of it *)
+    let order = clear_order order in
     let rec go k = function
       | [] -> ""
       | sh :: rest ->
@@ -443,6 +445,7 @@ let apply (toks : string list) (buf : Buffer.t) =
      (* `fault kind k res`: only the callbacks of resources count — outside the cell-level model *)
      armed := Some ((if Array.length arr > 3 then arr.(1) ^ "-res" else arr.(1)), u 2)
    | "dbg" -> ()
+   | "mrk" -> ()
    | "xrg" ->
      (* a ragged batch is refused by Batch::new (a panic): nothing reaches the world *)
      let ws = u 1 in
